@@ -66,7 +66,16 @@ pub fn judge_c02(rec: &mut Recorder, c: &HistCase, ex: Exec, _hello: &Value) -> 
     let Some(o) = unpack(rec, c, ex)? else { return Ok(()) };
     rec.eval(|| sample(c, &o));
     let sig = |s: &str| format!("C02/native/{s}");
-    for (li, l) in o.lifetimes.iter().enumerate() {
+    let mut o = o;
+    for li in 0..o.lifetimes.len() {
+        if let Some((ti, bytes, orig)) = o.lifetimes[li].rewritten.clone() {
+            // the harness rewrote this synthetic target before the lifetime: "as before the
+            // injector existed" now refers to the new content
+            o.targets[ti].pristine = bytes;
+            o.targets[ti].orig = orig;
+            rec.class("target-rewritten-between-lifetimes");
+        }
+        let l = &o.lifetimes[li];
         let mut stack: BTreeMap<usize, Vec<u64>> = BTreeMap::new();
         // call-count expectations pending in this lifetime: (target, position in its stack, n, count)
         let mut counted: Vec<(usize, usize, u64, u64)> = vec![];
